@@ -288,6 +288,10 @@ func cloneExpr(expr Expression) Expression {
 			FuncIx: expr.FuncIx,
 			p:      expr.p,
 		}
+	case *AnyMatcher:
+		return &AnyMatcher{
+			posValue: expr.posValue,
+		}
 	case *CharClassMatcher:
 		return &CharClassMatcher{
 			Chars:          append([]rune{}, expr.Chars...),
@@ -312,6 +316,11 @@ func cloneExpr(expr Expression) Expression {
 			Label: expr.Label,
 			p:     expr.p,
 		}
+	case *LitMatcher:
+		return &LitMatcher{
+			posValue:   expr.posValue,
+			IgnoreCase: expr.IgnoreCase,
+		}
 	case *NotExpr:
 		return &NotExpr{
 			Expr: cloneExpr(expr.Expr),
@@ -328,6 +337,18 @@ func cloneExpr(expr Expression) Expression {
 			Expr: cloneExpr(expr.Expr),
 			p:    expr.p,
 		}
+	case *RecoveryExpr:
+		return &RecoveryExpr{
+			Expr:        cloneExpr(expr.Expr),
+			RecoverExpr: cloneExpr(expr.RecoverExpr),
+			Labels:      append([]FailureLabel{}, expr.Labels...),
+			p:           expr.p,
+		}
+	case *RuleRefExpr:
+		return &RuleRefExpr{
+			Name: expr.Name,
+			p:    expr.p,
+		}
 	case *SeqExpr:
 		exprs := make([]Expression, 0, len(expr.Exprs))
 		for i := 0; i < len(expr.Exprs); i++ {
@@ -342,6 +363,11 @@ func cloneExpr(expr Expression) Expression {
 			p:      expr.p,
 			Code:   expr.Code,
 			FuncIx: expr.FuncIx,
+		}
+	case *ThrowExpr:
+		return &ThrowExpr{
+			Label: expr.Label,
+			p:     expr.p,
 		}
 	case *ZeroOrMoreExpr:
 		return &ZeroOrMoreExpr{
